@@ -81,6 +81,9 @@ def generate(rng, tier, index):
     if ops[-1]["op"] != "predict":
         ops.append(driver.gen_op(rng, recipe, "predict", allow, p_each))
     core.sticky_bundles(rng, ops)
+    for o in ops:
+        if o["op"] == "predict" and rng.random() < 0.12:
+            o["at"] = "inducing"  # predict exactly at the current inducing points (strategies special-case torch.equal(x, Z))
     return {"recipe": recipe, "ops": ops, "header": {"faulty": faulty}}
 
 
@@ -137,6 +140,11 @@ def execute(history):
                 if failed:
                     out.stats["probe:failed_op_then_predict"] += 1
                 args = driver.test_args(recipe, op)
+                if op.get("at") == "inducing":
+                    z = getattr(M.variational_strategy, "inducing_points", None)
+                    if torch.is_tensor(z) and z.dim() == 2 and z.shape[-1] == recipe["d"]:
+                        args = (z.detach().clone(),)
+                        out.stats["probe:predict_at_inducing_points"] += 1
                 rm = driver.predict(M, args, op, op.get("lik", False))
                 if not had_cache:
                     cache_bundle = op.get("bundle", [])
